@@ -1,2 +1,3 @@
 //! Harness-side models of the environment (DESIGN §3.2).
 pub mod uf;
+pub mod btmap;
